@@ -7,6 +7,44 @@ ROOT = os.path.dirname(os.path.dirname(os.path.abspath(__file__)))
 ALL = ["C%02d" % i for i in range(1, 21)]
 
 CLAIMED = {
+    "C05": dict(
+        category="model_checking",
+        text="MC_ModemMemory model-checks the memory schemes (DPSK phase accumulator, OQPSK quadrature register, pi/4-QPSK rotation flag) under every "
+             "sequence of Reset/SetMode/Modulate: after reset and in eval mode the round-trip law with its inherent start-up loss holds and eval calls "
+             "never move the memory. For every scheme/order/option the real modulator+demodulator are driven over every bit group, every ordered symbol "
+             "pair, long seeded sequences, 1-D and batched rows and reset/train/eval histories; each row is a RoundTrip event judged by Trace_Modem.",
+        design_ref="7/C05",
+        note="Nothing is demanded of training-mode calls or without a reset; the first OQPSK quadrature decision (reset value 0) is not compared.",
+        technique="TLA+ spec Modem/MC_ModemMemory + TLC: state-machine model checking of the memory laws, trace validation of recorded round trips"),
+    "C06": dict(
+        category="model_checking",
+        text="Received points are integers in units of 1/S, so Trace_Modem evaluates squared distances exactly: every recorded hard decision must carry the "
+             "label of a nearest point; every recorded LLR must be positive/negative when the nearest 0-/1-labelled point is nearer, and LLR x noise variance "
+             "must be kappa x (d1^2-d0^2) with one kappa>0 per scheme that TLC infers as an unlogged variable and then holds fixed, over noise variances "
+             "spanning six decades, scalar and per-symbol. Grid, decision-boundary and random points for every scheme of C05.",
+        design_ref="7/C06",
+        note="Near-ties inside the rounding guard (slack) are accepted either way; the scale law has a 1% full-scale tolerance; differential / alternating "
+             "schemes are driven on their decision variable (reference symbol 1, reset state).",
+        technique="TLA+ spec Modem + TLC trace validation with an inferred (unlogged) scale variable"),
+    "C14": dict(
+        category="model_checking",
+        text="MC_Gray proves on all n<2^16 that the spec's Gray maps are inverse bijections with unit-distance steps (and that the limb form agrees). "
+             "Trace_Modem then validates, for every published constellation, label bijectivity, distinct points, unit energy, that each label modulates "
+             "to its own point and Gray adjacency of all nearest-neighbour pairs, and validates the implementation's scalar and array Gray utilities on "
+             "n<2^16 (all in thorough) and seeded n<2^60.",
+        design_ref="7/C14",
+        note="Points are scaled integers (|coordinate| <= 8000); nearest neighbours = within 0.4% of the minimum squared distance.",
+        technique="TLA+ spec Gray/Modem + TLC: exhaustive model checking of the Gray algebra, trace validation of published constellations and utilities"),
+    "C15": dict(
+        category="model_checking",
+        text="The product of all soft demodulators and all LLR consumers (thresholders in LLR mode, repetition soft-bit decoder, BP/min-sum/Wagner/SC/"
+             "polar-BP/soft-RM decoders, llr_to_bits, sign_to_bin) is enumerated; for each pair and each bit sequence (exhaustive for short lengths) the "
+             "consumer's output on the producer's noise-free LLRs is a Polarity event that Trace_Modem compares with the transmitted bits / messages; "
+             "LLR->probability conversions are checked exactly on the ln2 lattice (P1 = 1/(1+2^a)).",
+        design_ref="7/C15",
+        note="Data-dependent thresholders are only driven where their own design separates the classes (equal magnitudes / outside the hysteresis band); "
+             "Gray DPSK and Gray pi/4-QPSK producers are excluded because their labels disagree (separate findings), which is not a polarity question.",
+        technique="TLA+ spec Modem (LLR convention) + TLC trace validation of the enumerated producer x consumer product"),
     "C18": dict(
         category="model_checking",
         text="MC_Algebra model-checks the spec's GF(2)[X] against the Euclidean-ring laws (all operand pairs) and its GF(2^m) against the field laws "
